@@ -1817,7 +1817,8 @@ pub fn c13(rec: &mut Rec, rng: &mut Rng, thorough: bool) {
     for _ in 0..n {
         rec.case("expect");
         // (limits of 4 GiB and more are configurable on a 64-bit target: they must not be confused with their low 32 bits)
-        let limit = *rng.pick(&[0usize, 1, 5, 100, 51200, 4294967296, 4294967396]);
+        // (… and limits RAISED above the default 51200: the rule speaks of the limit in force, not of the default)
+        let limit = *rng.pick(&[0usize, 1, 5, 100, 51200, 4294967296, 4294967396, 51201, 65536, 100000]);
         let big = limit > 4294967295;
         let mut d = ConnDriver::new(rec, limit);
         let k = rng.range(1, 4);
@@ -1839,6 +1840,7 @@ pub fn c13(rec: &mut Rec, rng: &mut Rng, thorough: bool) {
                 3 if !big => Some(limit),
                 4 if !big => Some(limit + 1),
                 4 => Some(101),
+                5 if limit > 51200 && !big => Some(rng.range(51201, limit)),
                 _ => Some(rng.range(1, 40)),
             };
             let v11 = rng.chance(1, 2);
